@@ -110,6 +110,16 @@ impl InterfaceInner {
         #[cfg(feature = "proto-ipv4-fragmentation")]
         let ip_payload = {
             if ipv4_packet.more_frags() || ipv4_packet.frag_offset() != 0 {
+                // Fragments of packets that are not addressed to us must not take up
+                // (and, if incomplete, hold until the timeout) the reassembly buffers.
+                if !self.has_ip_addr(ipv4_repr.dst_addr)
+                    && !self.has_multicast_group(ipv4_repr.dst_addr)
+                    && !self.is_broadcast_v4(ipv4_repr.dst_addr)
+                {
+                    net_trace!("Rejecting IPv4 fragment; not addressed to us");
+                    return None;
+                }
+
                 let key = FragKey::Ipv4(ipv4_packet.get_key());
 
                 let f = match frag.assembler.get(&key, self.now + frag.reassembly_timeout) {
